@@ -15,6 +15,7 @@ import (
 	"go/constant"
 	"go/token"
 	"go/types"
+	"golang.org/x/tools/go/ssa"
 	"sort"
 	"strings"
 )
@@ -114,7 +115,7 @@ func pClone(in []*pState) []*pState {
 
 type parseInterp struct {
 	curField string // name of the parser field that holds the current token (role: the Token-typed field)
-	kindEnv []map[types.Object][]int
+	kindEnv  []map[types.Object][]int
 	// kinds of call arguments that depend on the path (a local kind variable): set while the call is
 	// interpreted for the group of states that agree on the value
 	argKinds map[ast.Expr]int
@@ -205,6 +206,59 @@ func ruleParser(c *Ctx) {
 	pi.block(top.Body.List, []*pState{{T: pi.allKinds, ls: true}}, fr)
 	c.census("P-PROGRESS", "token loops interpreted", len(pi.nLoops), 6)
 	c.census("P-RESYNC", "calls of the recovery routine interpreted (over calling contexts)", pi.nSkips, 8)
+	// P-CARRY: the dispatcher loop carries nothing from one entry to the next but the parser and the journal under
+	// construction: no scalar loop-carried local (an index of "the transaction that is still open", a flag set by
+	// the previous entry) - what an entry is parsed into depends on the entry's own lines only
+	if f := c.P.ssaOf(top); f != nil && pi.topLoop != nil {
+		var carried []string
+		pos := top.Pos()
+		for _, b := range f.Blocks {
+			if !inCycle(b) {
+				continue
+			}
+			isHeader := false
+			for _, pb := range b.Preds {
+				if !reachesBlock(b, pb) {
+					isHeader = true // entered from outside the cycle
+				}
+			}
+			if !isHeader {
+				continue
+			}
+			// the header of the dispatcher loop itself: the block that evaluates its condition
+			if pi.topLoop.Cond != nil {
+				evalsCond := false
+				for _, ins := range b.Instrs {
+					if p := ins.Pos(); p.IsValid() && p >= pi.topLoop.Cond.Pos() && p <= pi.topLoop.Cond.End() {
+						evalsCond = true
+					}
+				}
+				if !evalsCond {
+					continue
+				}
+			}
+			for _, ins := range b.Instrs {
+				phi, ok := ins.(*ssa.Phi)
+				if !ok {
+					break
+				}
+				if bt, ok := phi.Type().Underlying().(*types.Basic); ok && bt.Info()&(types.IsInteger|types.IsBoolean|types.IsString) != 0 {
+					// a value the loop itself computes from the tokens is fine only if it is not loop-carried; a header
+					// phi is loop-carried by definition
+					if phi.Comment != "" {
+						carried = append(carried, phi.Comment)
+					} else {
+						carried = append(carried, phi.Name())
+					}
+					pos = phi.Pos()
+				}
+			}
+		}
+		sort.Strings(carried)
+		c.check(len(carried) == 0, "P-CARRY", pi.c.P.declName(top), "the dispatcher loop carries no scalar state between entries", pos,
+			"no integer / boolean / string local of the top-level loop is loop-carried",
+			"the top-level parse loop carries the local(s) "+strings.Join(carried, ", ")+" from one entry to the next: what a line is parsed into depends on what came before it in the file (an 'open transaction' index, a mode flag), so damage or content of one entry changes how another entry is read")
+	}
 }
 
 // readsCurrent: the expression reads the kind of the current token, directly or through pure boolean methods.
